@@ -344,7 +344,7 @@ mutual
     | .empty, l => l.kind == .elem && emptyLoop l.node.children
     | .root, l =>
       l.kind == .elem && l.data == htmlTag &&
-      (match l.parent? with | some p => p.kind == .doc | none => false)
+      (match l.parent? with | some p => p.kind == .doc | none => true)
     | .never _, _ => false
     | .rel k args, l =>
       l.kind == .elem &&
